@@ -96,6 +96,15 @@ Record HypFns (N : Num) := mkHypFns {
   h_hyp2f1_laplace : T N -> T N -> T N -> T N -> exc (T N)
 }.
 
+(** ** Functions of tsdate/hypergeo.py that are NOT translated (scipy's gammaincinv binding; the
+    AS 239 series / continued fraction for d/da of the regularised incomplete gamma) but are called
+    from translated code (approx.approximate_gamma_iqr).  Arbitrary functions in the theorems;
+    recorded values in the binary64 instance. *)
+Record ExtFns (N : Num) := mkExtFns {
+  e_gammainc_inv : T N -> T N -> T N;
+  e_gammainc_der : T N -> T N -> exc (T N)
+}.
+
 (** ** Reals *)
 Definition RF (lgam : R -> R) (egamma : R) : Fns RNum :=
   mkFns RNum Rtrigo_def.exp Rpower.ln R_sqrt.sqrt lgam Rtrigo1.tan Rtrigo_def.sin Rtrigo1.PI egamma
@@ -145,3 +154,37 @@ Definition show_n {A : Type} (r : nanv A) : option A := match r with Val a => So
 Definition show_e {A : Type} (r : exc A) : A + err := match r with Ok a => inl a | Err e => inr e end.
 Definition show_en {A : Type} (r : exc (nanv A)) : option A + err :=
   match r with Ok (Val a) => inl (Some a) | Ok Nan => inl None | Err e => inr e end.
+
+(** binary64 instance of [ExtFns]: two-argument lookups in a table of recorded calls
+    (id 5: gammainc_inv, 6: gammainc_der returned, 7: gammainc_der raised AssertionError); arguments are
+    matched to 1e-9 relative, as for the one-argument functions *)
+Definition frel (u v : float) : float :=
+  if orb (PrimFloat.eqb u v) (andb (f_is_nan u) (f_is_nan v)) then PrimFloat.zero
+  else PrimFloat.div (fabs (PrimFloat.sub u v)) (fabs v).
+(** the recorded call nearest to (a, x) (the Newton iterates of the quantile fit converge, so several
+    recorded arguments can be within 1e-9 of each other: the nearest one is the right one) *)
+Fixpoint nearest2 (tb : list (Z * float * float * float)) (id : Z) (a x : float)
+                  (best : option (float * float)) : option (float * float) :=
+  match tb with
+  | [] => best
+  | (i, a0, x0, v) :: r =>
+      if Z.eqb i id then
+        let d := PrimFloat.add (frel a0 a) (frel x0 x) in
+        match best with
+        | None => if f_is_nan d then nearest2 r id a x best else nearest2 r id a x (Some (d, v))
+        | Some (d0, _) => if PrimFloat.ltb d d0 then nearest2 r id a x (Some (d, v)) else nearest2 r id a x best
+        end
+      else nearest2 r id a x best
+  end.
+Definition lookup2 (tb : list (Z * float * float * float)) (id : Z) (a x : float) : option float :=
+  match nearest2 tb id a x None with
+  | Some (d, v) => if PrimFloat.leb d 0x1.12e0be826d695p-30%float then Some v else None
+  | None => None
+  end.
+Definition EF (tb : list (Z * float * float * float)) : ExtFns FNum :=
+  mkExtFns FNum
+    (fun a x => match lookup2 tb 5 a x with Some v => v | None => nan end)
+    (fun a x => match lookup2 tb 7 a x with
+                | Some _ => Err EAssert
+                | None => match lookup2 tb 6 a x with Some v => Ok v | None => Ok nan end
+                end).
